@@ -649,7 +649,8 @@ pub fn build_layout_on(p: &Profile, s: &mut Src, bits: u32) -> Layout {
         let opt_path = if s.chance(1, 4) { s.range(1, 2) as u8 } else { 0 };
         let zero_pad = s.chance(1, 10);
         let prefix = if s.chance(1, 4) { s.pick(&["r", "rr", "rate", "w", "x_", "ready", "set", "with", "value", "_", "_reserved"]) } else { "f" };
-        l.fields.push(Field { name: format!("{}{}", prefix, k), kw_bit, list: list_syntax, ranges, array, ty, access, arg_order, opt_path, huge: None, zero_pad });
+        let name = format!("{}{}", prefix, k);
+        l.fields.push(Field { name, kw_bit, list: list_syntax, ranges, array, ty, access, arg_order, opt_path, huge: None, zero_pad });
     }
     if l.fields.is_empty() {
         // always at least one field: a single bit at 0
@@ -676,6 +677,47 @@ pub fn build_layout_on(p: &Profile, s: &mut Src, bits: u32) -> Layout {
     if p.ensure_readable && !l.fields.iter().any(|f| f.access.readable()) {
         l.fields[0].access = Access::RW;
     }
+    // ---- field names that could collide inside the generated code (all of them legal: no two generated
+    // items share a name)
+    if s.chance(1, 5) {
+        let n = l.fields.len();
+        let i = s.below(n as u32) as usize;
+        let j = (i + 1) % n;
+        let taken = |l: &Layout, nm: &str| l.fields.iter().any(|f| f.name == nm);
+        match s.below(4) {
+            0 => {
+                // a name the templates use for their own parameters and locals
+                let nm = s.pick(&["index", "effective_index", "field_value", "value", "mask", "shift", "result", "one"]);
+                if !taken(&l, nm) {
+                    l.fields[i].name = nm.to_string();
+                }
+            }
+            1 if n >= 2 => {
+                // two names that differ only in case
+                let nm = l.fields[i].name.to_uppercase();
+                if nm != l.fields[i].name && !taken(&l, &nm) {
+                    l.fields[j].name = nm;
+                }
+            }
+            2 if n >= 2 => {
+                // a field called with_x / set_x next to a field x that has no with_x / set_x of its own
+                if !l.fields[i].access.writable() {
+                    let nm = format!("{}_{}", s.pick(&["with", "set"]), l.fields[i].name);
+                    if !taken(&l, &nm) {
+                        l.fields[j].name = nm;
+                    }
+                }
+            }
+            _ => {
+                // raw identifiers (keywords as field names): the getter keeps the `r#`, with_/set_ drop it. Not
+                // under `debug`, where the statement does not say whether the printed name carries the prefix.
+                let nm = s.pick(&["r#type", "r#fn", "r#match", "r#loop", "r#struct", "r#mod", "r#ref", "r#return", "r#impl", "r#priv"]);
+                if !p.debug && !taken(&l, nm) {
+                    l.fields[i].name = nm.to_string();
+                }
+            }
+        }
+    }
     if p.w_twin {
         let mut twins = Vec::new();
         for f in &l.fields {
@@ -687,6 +729,12 @@ pub fn build_layout_on(p: &Profile, s: &mut Src, bits: u32) -> Layout {
             }
         }
         l.fields.extend(twins);
+    }
+    if rules::api_name_collision(&l).is_some() {
+        // cannot happen by construction; kept as a guard so that a naming choice never costs a false alarm
+        for (k, f) in l.fields.iter_mut().enumerate() {
+            f.name = format!("f{}", k);
+        }
     }
     // ---- default
     let want_default = match p.default {
